@@ -8,6 +8,7 @@ package fh
 //@ spec MakeFh
 //@   props C08 C11
 //@   ensures [H4-decode] len(fh3.Data) >= 16 ==> result.Ino == le64(fh3.Data, 0) && result.Gen == le64(fh3.Data, 8) @C08
+//@   ensures [H4-short] len(fh3.Data) < 16 ==> result.Ino == 0 && result.Gen == 0 @C08 @C11
 
 //@ spec (Fh).MakeFh3
 //@   props C08 C11
